@@ -34,10 +34,12 @@ def experiment_level(ctx, nexp, nconf):
     # two learners of one class of which only one offers score, under evaluators that ask whether a learner can score
     specs.append(dict(envs=[["group", 0, 0], ["group", 0, 1]], lrns=[["mscore", True], ["mscore", False]], vals=[["seqips"]], groups=[dict(n=8, seed=4, prefix=None, fan=2, logged=True)],
                       triples=[[0, 0, 0], [0, 1, 0], [1, 1, 0], [1, 0, 0]]))
+    # the record of evaluator 0 reaches the result after the record of evaluator 1 (its params are slow to compute): the tables are the same all the same
+    specs.append(dict(envs=[["lin", 6, 3]], lrns=[["count", 1]], vals=[["slowparams", 0.6], ["seq2", 3]], groups=[], triples=[[0, 0, 0], [0, 0, 1]]))
     for _ in range(nexp): specs.append(expcore.gen_spec(rng))
     for si, spec in enumerate(specs):
         seed = rng.choice([1, 1, 7])
-        confs = [CONFIGS[0], CONFIGS[0]] + (CONFIGS[1:] if si in (0, 2) else [(1, 1, 0), (2, 1, 1)] if si == 1 else rng.sample(CONFIGS[1:], min(nconf, len(CONFIGS) - 1)))
+        confs = [CONFIGS[0], CONFIGS[0]] + (CONFIGS[1:] if si in (0, 2) else [(1, 1, 0), (2, 1, 1)] if si == 1 else [(2, 0, 0), (2, 0, 1), (3, 2, 2)] if si == 3 else rng.sample(CONFIGS[1:], min(nconf, len(CONFIGS) - 1)))
         for ci, (p, mc, mt) in enumerate(confs):
             jobs.append(dict(spec=spec, p=p, mc=mc, mt=mt, seed=seed)); index.append((si, ci, (p, mc, mt)))
     done, hung, err = expcore.run_jobs(jobs, "c01")
